@@ -655,6 +655,10 @@ def _split_msh(content):
         if len(seps) > len(set(seps)):
             raise InvalidEncodingChars("Found duplicate encoding chars")
 
+        if any(c.isspace() for c in seps):
+            # a blank delimiter would be lost as soon as a segment is stripped
+            raise InvalidEncodingChars("Encoding chars cannot be whitespaces")
+
         try:
             comp_sep, rep_sep, escape, sub_sep = seps
             trunc_sep = None
